@@ -240,9 +240,11 @@ def advance (p : Pat) (cfg : Cfg) (r : Run) (e : Event) : Adv :=
     -- "Check if we're at an accept state" (only a one-step pattern leaves a run sitting there)
     if p.isLast r.pos && !cur.kleene then .complete r.result
     -- KLEENE SELF-LOOP
-    else if cur.kleene && matchesState cur e r.caps
-            && (!p.isLast r.pos || (match cur.postponed with | some q => evalPred q e r.caps | none => true)) then
+    else if cur.kleene && matchesState cur e r.caps then
       if (match r.kc with | some n => decide (n ≥ cfg.maxKleene) | none => false) then .continue r
+      -- has_epsilon_to_accept: every event is emitted at once, so the postponed (self-referencing)
+      -- predicate is checked here against the previously captured event of the closure
+      else if p.isLast r.pos && (match cur.postponed with | some q => !evalPred q e r.caps | none => false) then .noMatch
       else
         let r' := r.push e cur.alias
         if p.isLast r.pos then .completeAndContinue r' r'.result
@@ -329,7 +331,10 @@ def stepEngine (p : Pat) (cfg : Cfg) (s : Eng) (e : Event) : Eng × List Match :
   let (runs', ms) := processRuns p cfg e (marked key) 0 []
   match tryStart p e with
   | some r =>
-    if runs'.length < cfg.maxRuns then
+    -- a single-step pattern: the start event already reaches the accept state and completes the match
+    if p.isLast 0 && !(p.steps.head?.map (·.kleene)).getD false then
+      (⟨fun k => if k = key then runs' else marked k, s.dropped⟩, ms ++ [r.result])
+    else if runs'.length < cfg.maxRuns then
       (⟨fun k => if k = key then runs' ++ [r] else marked k, s.dropped⟩, ms)
     else (⟨fun k => if k = key then runs' else marked k, true⟩, ms)
   | none => (⟨fun k => if k = key then runs' else marked k, s.dropped⟩, ms)
